@@ -297,9 +297,15 @@ pub fn run(ctx: &mut Ctx) {
         let provider_fails = rng.chance(1, 8);
         ctx.begin_case(idx, || case_json(idx, "now", format!("base-now={} voucher={:?} provider_fails={}", d, kind, provider_fails)));
         let mut seen: Option<OffsetDateTime> = None;
+        let mut slow = false;
         let res = catch(|| {
             VouchedTime::now(|now: OffsetDateTime| {
                 seen = Some(now);
+                if r % 256 == 1 {
+                    // a provider that takes its time (real ones do I/O)
+                    std::thread::sleep(std::time::Duration::from_millis(3));
+                    slow = true;
+                }
                 if provider_fails {
                     return Err(std::io::Error::new(std::io::ErrorKind::NotConnected, "harness provider failure"));
                 }
@@ -362,6 +368,9 @@ pub fn run(ctx: &mut Ctx) {
         match verdict {
             Ok(()) => {
                 ctx.feature("vtime.now_cases");
+                if slow {
+                    ctx.feature("vtime.now_with_a_provider_that_takes_3ms");
+                }
                 if provider_fails {
                     ctx.feature("vtime.now_provider_error_propagated");
                 }
